@@ -1,8 +1,10 @@
 ----------------------------- MODULE SymOrbits -----------------------------
 (* C20 / C21: space-group operations acting on sites and on hopping triples (R, a, b).
 
-   Lattices are orthogonal (cubic a=b=c, tetragonal a=b#c, orthorhombic), so every point operation is a signed
-   permutation matrix W, the same in lattice and in Cartesian coordinates.  Positions and translations are rationals
+   Lattices are orthogonal (cubic a=b=c, tetragonal a=b#c, orthorhombic), where every point operation is a signed
+   permutation matrix W, the same in lattice and in Cartesian coordinates, or hexagonal ("hex"), where W is an integer
+   matrix in lattice coordinates that differs from the Cartesian one (the harness converts: W_cart = A^T W A^-T, rows
+   of A = lattice vectors; non-magnetic structures only).  Positions and translations are rationals
    n/DEN stored as integer numerators.  An operation g = [W, t] acts as  g(p) = W p + t  (irrep: transform_r).
 
    Transcribed from the code:
@@ -37,10 +39,15 @@ DetI(W) == W[1][1] * (W[2][2] * W[3][3] - W[2][3] * W[3][2]) - W[1][2] * (W[2][1
 
 Perms3 == {p \in [1..3 -> 1..3] : {p[1], p[2], p[3]} = {1, 2, 3}}
 SignedPerms == {M3(LAMBDA i, j : IF p[i] = j THEN s[i] ELSE 0) : p \in Perms3, s \in [1..3 -> {1, -1}]}
+(* hexagonal cell a1 = a x, a2 = a (-1/2, sqrt3/2, 0), a3 = c z: operations are integer matrices in lattice coordinates that
+   keep the metric a1.a1 : a1.a2 : a2.a2 = 2 : -1 : 2 (the c axis decouples); here W differs from the Cartesian matrix *)
+HexMetric == << <<2, -1, 0>>, <<-1, 2, 0>>, <<0, 0, 5>> >>
+HexCands == {<< <<a, b, 0>>, <<c, d, 0>>, <<0, 0, e>> >> : a \in (-1)..1, b \in (-1)..1, c \in (-1)..1, d \in (-1)..1, e \in {1, -1}}
 (* holohedry of the lattice: a signed permutation may only exchange axes of equal length *)
 Holohedry(lat) == CASE lat = "cubic" -> SignedPerms
                     [] lat = "tetra" -> {W \in SignedPerms : W[3][3] # 0}
                     [] lat = "ortho" -> {W \in SignedPerms : W[1][1] # 0 /\ W[2][2] # 0 /\ W[3][3] # 0}
+                    [] lat = "hex"   -> {W \in HexCands : MM(TransposeI(W), MM(HexMetric, W)) = HexMetric}
 
 -----------------------------------------------------------------------------
 (* a structure: sequence of sites [type, pos (numerators), mom (integer axial vector, ZeroV = non-magnetic)] *)
@@ -95,6 +102,9 @@ HybridsPermuted(W, shell) == CASE shell = "sp3" -> \A d \in Sp3Dirs : MV(W, d) \
                                [] OTHER -> TRUE
 ShellAllowed(G, shell) == \A g \in G : AxesPreserved(g.W, ShellAxes(shell)) /\ HybridsPermuted(g.W, shell)
 ProjShells == {"s", "p", "d", "sp3", "sp3d2", "t2g", "eg", "sp", "pz", "p2", "pxy", "sp2"}
+(* on the hexagonal cell W is not the Cartesian matrix: only the full shells and pz (the c axis is Cartesian z) are admitted *)
+HexShells == {"s", "p", "d", "pz"}
+ShellAllowedIn(lat, G, shell) == IF lat = "hex" THEN shell \in HexShells /\ ShellAllowed(G, shell) ELSE ShellAllowed(G, shell)
 
 (* the class of inputs on which the symmetriser's per-orbital treatment of Wannier centres is not exact: a site whose
    symmetry group leaves a vector invariant (the centres may move off the site) and contains an operation that mixes
